@@ -172,11 +172,30 @@ def p_rules(p: Project, rep: Report):
     pcfg = ppaths.cfg
     pparam = params_of(parse0)[2] if len(params_of(parse0)) > 2 else "parser"
     ok = bool(rps)
+    # statements inside a try that has NO except clause: when one of them raises, the finally block runs and the exception
+    # goes on - such a path never reaches a return (the path engine lets it fall through the finally block)
+    unhandled = set()
+    for t_ in ast.walk(parse):
+        if isinstance(t_, ast.Try) and not t_.handlers:
+            for st_ in t_.body:
+                for x_ in ast.walk(st_):
+                    if isinstance(x_, ast.stmt):
+                        unhandled.add(f"raises({text(x_)})")
     for pth, rtxt, sc in rps:
+        if any(w_ is True and a_ in unhandled for a_, w_ in sc.items()):
+            continue
         # `self._root = X.close(); return self._root`
         if rtxt == "self._root":
             sets = [pcfg.nodes[i].stmt for i in pth.nodes if isinstance(pcfg.nodes[i].stmt, ast.Assign) and text(pcfg.nodes[i].stmt.targets[0]) == "self._root"]
             rtxt = text(PT2.value_on_path(pth, pcfg, sets[-1].value, upto=len(pth.nodes) - 1)) if sets else rtxt
+        # a temporary between close() and the attribute (`root = builder.close(); self._root = root`)
+        hops = 0
+        while not rtxt.endswith(".close()") and rtxt.isidentifier() and hops < 4:
+            hops += 1
+            binds = [pcfg.nodes[i].stmt for i in pth.nodes if isinstance(pcfg.nodes[i].stmt, ast.Assign) and len(pcfg.nodes[i].stmt.targets) == 1 and text(pcfg.nodes[i].stmt.targets[0]) == rtxt]
+            if not binds:
+                break
+            rtxt = text(binds[-1].value)
         if not rtxt.endswith(".close()"):
             ok = False
     rep.check("P-R2", "OFXTree.parse:returns-parser.close()", ok, "parse() can return a root that did not come from the builder's close()" if not ok else "", ploc(p, parse0))
